@@ -171,7 +171,7 @@ Definition raccept_app (s : rst) (t : nat) (e : rev) : option rst :=
   | RAFlushWait k last fl, RLdNotified v => if Nat.eqb v (r_notified s) then Some (rset_ap s t (RAFlushWait k (Some v) fl)) else None
   (* the exporter is flushed only after the caller has read its ticket as published (a caller woken by Shutdown returns false) *)
   | RAFlushWait k (Some v) None, RExpFlush r =>
-      if Nat.leb k v then Some (rset_ap s t (RAFlushWait k None (Some r))) else None
+      if Nat.leb k v then Some (rset_ap s t (RAFlushWait k (Some v) (Some r))) else None   (* `notified` only grows: the value read stays a lower bound, a fresh load before returning is optional *)
   | RAFlushWait k last fl, RRetFlush r =>
       let expected := match fl, last with
                       | Some true, Some v => Nat.leb k v        (* result && notified.load() >= ticket *)
